@@ -61,6 +61,29 @@ Qed.
 Lemma u32_succ_mod a : u32 (a mod 4294967296 + 1) = (a + 1) mod 4294967296.
 Proof. unfold u32. lia. Qed.
 
+Lemma last_opt_cons {A} (a : A) l : last_opt (a :: l) = match last_opt l with Some x => Some x | None => Some a end.
+Proof. change (a :: l) with ([a] ++ l). rewrite last_opt_app_l. reflexivity. Qed.
+
+Lemma unwrap_state st i : fst (unwrap st i) = Some (snd (unwrap st i)).
+Proof. destruct st; reflexivity. Qed.
+
+Lemma unwrap_all_length st l : length (unwrap_all st l) = length l.
+Proof.
+  revert st; induction l as [|i tl IH]; intros st; simpl; auto.
+  destruct (unwrap st i). simpl. f_equal. apply IH.
+Qed.
+
+Lemma unwrap_all_snoc st l x :
+  unwrap_all st (l ++ [x]) =
+  unwrap_all st l ++ [snd (unwrap (match last_opt (unwrap_all st l) with Some r => Some r | None => st end) x)].
+Proof.
+  revert st; induction l as [|i tl IH]; intros st; simpl.
+  - destruct (unwrap st x); reflexivity.
+  - pose proof (unwrap_state st i) as G. destruct (unwrap st i) as [st' r]. simpl in G. subst st'.
+    simpl. rewrite IH. rewrite last_opt_cons.
+    destruct (last_opt (unwrap_all (Some r) tl)); reflexivity.
+Qed.
+
 Section P.
   Context {F : Type} (fzero : F) (k_units : Z -> Z -> Z) (k_jitter : Z -> F -> Z -> F)
           (k_rjitter : Z -> Z -> F) (k_frac : Z -> F) (k_delay : Z -> Z) (k_ntpfrac : Z -> Z)
@@ -196,4 +219,493 @@ Section P.
         apply invCp_fold. exact IH. }
     exact G.
   Qed.
+
+  (* ================= group A: recordIncomingRTP ================= *)
+  Definition invA (evs : list event) (a : inb F) : Prop :=
+    let U := in_unwrapped ssrc evs in
+    uw a = last_opt U /\
+    match U with [] => in_init a = false | f :: _ => in_init a = true /\ in_first a = f end /\
+    in_high a = fold_left Z.max U 0 /\
+    i_recv a = spec_in_recv ssrc evs /\
+    i_lost a = spec_in_lost ssrc evs /\
+    i_hdr a = spec_in_hdr ssrc evs /\
+    i_bytes a = spec_in_bytes ssrc evs /\
+    i_last a = spec_in_last ssrc evs.
+
+  Lemma in_pks_snoc evs e : in_pks ssrc (evs ++ [e]) = in_pks ssrc evs ++ in_pk ssrc e.
+  Proof. apply flat_map_snoc. Qed.
+
+  Lemma invA_run evs : invA evs (sa (run evs)).
+  Proof.
+    induction evs as [|e evs IH] using rev_ind.
+    - repeat split.
+    - rewrite run_snoc.
+      assert (Hskip : in_pk ssrc e = [] -> invA (evs ++ [e]) (sa (run evs))).
+      { intros E. unfold invA, spec_in_lost, in_unwrapped, spec_in_recv, spec_in_hdr, spec_in_bytes, spec_in_last, in_unwrapped in *.
+        rewrite in_pks_snoc, E, app_nil_r. exact IH. }
+      destruct e; simpl; try (apply Hskip; reflexivity).
+      unfold rec_in_rtp. destruct (ss =? ssrc) eqn:E; simpl; [|apply Hskip; simpl; rewrite E; reflexivity].
+      clear Hskip. destruct IH as (H1 & H2 & H3 & H4 & H5 & H6 & H7 & H8).
+      unfold invA, spec_in_lost, in_unwrapped, spec_in_recv, spec_in_hdr, spec_in_bytes, spec_in_last, in_unwrapped in *.
+      rewrite in_pks_snoc. simpl in_pk. rewrite E. rewrite !map_app. simpl map.
+      rewrite unwrap_all_snoc, !zsum_app, zlen_app, !last_opt_app.
+      set (U := unwrap_all None (map (pk_seq) (in_pks ssrc evs))) in *.
+      rewrite H1. 
+      replace (match last_opt U with Some r => Some r | None => None end) with (last_opt U) by (destruct (last_opt U); reflexivity).
+      destruct (unwrap (last_opt U) seq) as [uw' sn] eqn:EU.
+      assert (Euw : uw' = Some sn).
+      { pose proof (unwrap_state (last_opt U) seq) as G. rewrite EU in G. exact G. }
+      simpl snd.
+      assert (Hhigh : (if sn >? in_high (sa (run evs)) then sn else in_high (sa (run evs))) = fold_left Z.max (U ++ [sn]) 0).
+      { rewrite fold_left_app. simpl. rewrite H3. destruct (sn >? _) eqn:G; lia. }
+      assert (Hfirst : match U ++ [sn] with [] => False | f :: _ => (if in_init (sa (run evs)) then in_first (sa (run evs)) else sn) = f end).
+      { destruct U as [|f U']; simpl.
+        - rewrite H2. reflexivity.
+        - destruct H2 as [G1 G2]. rewrite G1. exact G2. }
+      assert (Hlost : (if sn >? in_high (sa (run evs)) then sn else in_high (sa (run evs)))
+                      - (if in_init (sa (run evs)) then in_first (sa (run evs)) else sn) + 1 - (i_recv (sa (run evs)) + 1)
+                      = match U ++ [sn] with [] => 0 | first :: _ => fold_left Z.max (U ++ [sn]) 0 - first + 1 - (zlen (in_pks ssrc evs) + zlen [(ts, seq, hdr, pay)]) end).
+      { rewrite Hhigh, H4. destruct (U ++ [sn]) eqn:EE; [destruct U; discriminate|]. rewrite Hfirst. unfold zlen; simpl; lia. }
+      destruct (arr_init (sa (run evs))); simpl;
+        (split; [exact Euw|]); (split; [destruct (U ++ [sn]) eqn:EE; [destruct U; discriminate|split; [reflexivity|exact Hfirst]]|]);
+        (split; [exact Hhigh|]); (split; [rewrite H4; unfold zlen; simpl; lia|]); (split; [exact Hlost|]);
+        (split; [rewrite H6; unfold zsum; simpl; lia|]); (split; [rewrite H7; unfold zsum; simpl; lia|]); reflexivity.
+  Qed.
+
+  (* under well-typed input (sequence numbers are uint16) "highest" is the maximum of the unwrapped numbers *)
+  Lemma fold_max_ge l a : a <= fold_left Z.max l a /\ forall x, In x l -> x <= fold_left Z.max l a.
+  Proof.
+    revert a; induction l as [|y l IH]; intros a; simpl.
+    - split; [lia|tauto].
+    - destruct (IH (Z.max a y)) as [G1 G2]. split; [lia|].
+      intros x [->|Hx]; [lia|auto].
+  Qed.
+
+  Lemma fold_max_in l a : fold_left Z.max l a = a \/ In (fold_left Z.max l a) l.
+  Proof.
+    revert a; induction l as [|y l IH]; intros a; simpl; auto.
+    destruct (IH (Z.max a y)) as [G|G]; [|auto].
+    rewrite G. destruct (Z.max_spec a y) as [[_ ->]|[_ ->]]; auto.
+  Qed.
+
+  Lemma fold_max_is_max l : l <> [] -> Forall (fun x => 0 <= x) l ->
+    In (fold_left Z.max l 0) l /\ forall x, In x l -> x <= fold_left Z.max l 0.
+  Proof.
+    intros Hne Hpos. split; [|apply fold_max_ge].
+    destruct (fold_max_in l 0) as [G|G]; auto.
+    destruct l as [|y l]; [congruence|].
+    inversion Hpos as [|? ? Hy _]; subst.
+    destruct (fold_max_ge (y :: l) 0) as [_ G2]. specialize (G2 y (or_introl eq_refl)).
+    assert (y = 0) by lia. subst y. rewrite G. left; reflexivity.
+  Qed.
+
+  (* ================= group D: recordIncomingRTCP ================= *)
+  Definition rtt3 (smp : Z * Z * Z) : Z := let '(ts, d, n) := smp in rtt_of k_delay k_ntpfrac ts d n.
+  Definition is_sr_to_s (p : rtcp) : bool :=
+    match p with PSR _ _ _ _ _ _ => addressed ssrc p | _ => false end.
+
+  (* the remote-side state summarises: P incoming packets, O reception-report
+     occurrences about ssrc, X DLRR occurrences about ssrc *)
+  Definition invD4 (P : list rtcp) (O : list (list event * Z * report)) (X : list (list event * Z * dlrr))
+             (d : rem F) : Prop :=
+    o_nack d = (count (fun p => is_nack p && fb_to_s ssrc p) P) mod 4294967296 /\
+    o_fir d = (count (fun p => is_fir p && fb_to_s ssrc p) P) mod 4294967296 /\
+    o_pli d = (count (fun p => is_pli p && fb_to_s ssrc p) P) mod 4294967296 /\
+    ri_lost d = match last_opt (map occ_rep O) with Some (Rep _ _ lost _ _ _ _) => lost | None => 0 end /\
+    ri_jit d = match last_opt (map occ_rep O) with Some (Rep _ _ _ _ jit _ _) => k_rjitter rate jit | None => fzero end /\
+    ri_frac d = match last_opt (map occ_rep O) with Some (Rep _ fr _ _ _ _ _) => k_frac fr | None => fzero end /\
+    ri_recv d = match last_opt (flat_map (recv_src ssrc) O) with Some v => v | None => 0 end /\
+    ri_rtt d = match last_opt (flat_map (lsr_sample ssrc) O) with Some smp => rtt3 smp | None => 0 end /\
+    ri_total d = zsum (map rtt3 (flat_map (lsr_sample ssrc) O)) /\
+    ri_meas d = zlen (flat_map (lsr_sample ssrc) O) /\
+    ro_rtt d = match last_opt (flat_map dlrr_sample X) with Some smp => rtt3 smp | None => 0 end /\
+    ro_total d = zsum (map rtt3 (flat_map dlrr_sample X)) /\
+    ro_meas d = zlen (flat_map dlrr_sample X) /\
+    ro_reports d = zlen (filter is_sr_to_s P) /\
+    match last_opt (filter is_sr_to_s P) with
+    | Some (PSR _ ntp _ pc oc _) => ro_sent d = pc /\ ro_bytes d = oc /\ ro_ts d = Some (to_time k_ntpfrac ntp)
+    | _ => ro_sent d = 0 /\ ro_bytes d = 0 /\ ro_ts d = None
+    end.
+
+  Definition invD (evs : list event) (d : rem F) : Prop :=
+    invD4 (flat_map in_rtcp evs) (rr_occs ssrc evs) (dl_occs ssrc evs) d.
+
+  (* what the recorder knows from the other groups when an incoming compound arrives after [pre] *)
+  Definition ctx (pre : list event) (b : outb) (c : fbk) : Prop :=
+    match first_out_seq ssrc pre with
+    | Some f => rf_init b = true /\ rf b = f
+    | None => rf_init b = false
+    end /\ srs c = recent (sr_ntps ssrc pre) /\ rrtrs c = recent (rrtr_ntps pre).
+
+  Lemma highest_id ls : (ls / 65536) * 65536 + ls mod 65536 = ls.
+  Proof. lia. Qed.
+
+  (* one matching reception report *)
+  Lemma rr1_match pre b c ts P O X d r :
+    ctx pre b c -> rep_ssrc r = ssrc -> invD4 P O X d ->
+    invD4 P (O ++ [(pre, ts, r)]) X (rec_rr1 k_rjitter k_frac k_delay k_ntpfrac ssrc rate b c ts d r).
+  Proof.
+    intros (Hb & Hs & _) Hm (H1 & H2 & H3 & H4 & H5 & H6 & H7 & H8 & H9 & H10 & H11 & H12 & H13 & H14 & H15).
+    destruct r as [rs fr lost ls jit lsr dly]. simpl in Hm. subst rs.
+    unfold rec_rr1. rewrite Z.eqb_refl. simpl negb. cbv iota.
+    unfold invD4. rewrite !map_app, !flat_map_snoc, !map_app, !zsum_app, !zlen_app, !last_opt_app_l.
+    cbn [map occ_rep snd last_opt last].
+    rewrite highest_id.
+    assert (Hrecv : (if rf_init b then Z.max (ls - rf b + 1 - lost) 0 else ri_recv d) =
+                    match match last_opt (recv_src ssrc (pre, ts, Rep ssrc fr lost ls jit lsr dly)) with
+                          | Some x => Some x
+                          | None => last_opt (flat_map (recv_src ssrc) O)
+                          end with Some v => v | None => 0 end).
+    { unfold recv_src. destruct (first_out_seq ssrc pre) as [f|].
+      - destruct Hb as [Hb1 Hb2]. rewrite Hb1, Hb2. reflexivity.
+      - rewrite Hb. simpl. exact H7. }
+    assert (Hsmp : lsr_sample ssrc (pre, ts, Rep ssrc fr lost ls jit lsr dly) =
+                   if negb (dly =? 0) && negb (lsr =? 0)
+                   then match find (fun n => mid32 n =? lsr) (srs c) with Some n => [(ts, dly, n)] | None => [] end
+                   else []).
+    { unfold lsr_sample. rewrite Hs. reflexivity. }
+    rewrite Hsmp. clear Hsmp.
+    destruct (negb (dly =? 0) && negb (lsr =? 0)).
+    - destruct (find (fun n => mid32 n =? lsr) (srs c)) as [n|]; simpl.
+      + repeat split; auto;
+          try (rewrite H9; unfold zsum, rtt3; simpl; lia); try (rewrite H10; unfold zlen; simpl; lia).
+      + rewrite !Z.add_0_r. repeat split; auto.
+    - simpl. rewrite !Z.add_0_r. repeat split; auto.
+  Qed.
+
+  Lemma rr1_skip b c ts d r : rep_ssrc r <> ssrc ->
+    rec_rr1 k_rjitter k_frac k_delay k_ntpfrac ssrc rate b c ts d r = d.
+  Proof.
+    intros Hm. destruct r; simpl in *. destruct (rssrc =? ssrc) eqn:E; [lia|reflexivity].
+  Qed.
+
+  Lemma rr_fold pre b c ts P X reps : ctx pre b c -> forall O d, invD4 P O X d ->
+    invD4 P (O ++ map (fun r => (pre, ts, r)) (filter (fun r => rep_ssrc r =? ssrc) reps)) X
+          (fold_left (rec_rr1 k_rjitter k_frac k_delay k_ntpfrac ssrc rate b c ts) reps d).
+  Proof.
+    intros Hc. induction reps as [|r reps IH]; intros O d H; simpl.
+    - rewrite app_nil_r. exact H.
+    - destruct (rep_ssrc r =? ssrc) eqn:E.
+      + simpl. replace (O ++ (pre, ts, r) :: map (fun r0 => (pre, ts, r0)) (filter (fun r0 => rep_ssrc r0 =? ssrc) reps))
+          with ((O ++ [(pre, ts, r)]) ++ map (fun r0 => (pre, ts, r0)) (filter (fun r0 => rep_ssrc r0 =? ssrc) reps))
+          by (rewrite <- app_assoc; reflexivity).
+        apply IH. apply rr1_match; auto. lia.
+      + rewrite rr1_skip by lia. apply IH. exact H.
+  Qed.
+
+  (* one DLRR sub-report *)
+  Lemma dl1_match pre b c ts P O X d x :
+    ctx pre b c -> dl_ssrc x = ssrc -> invD4 P O X d ->
+    invD4 P O (X ++ [(pre, ts, x)]) (rec_dlrr1 k_delay k_ntpfrac ssrc c ts d x).
+  Proof.
+    intros (_ & _ & Hr) Hm (H1 & H2 & H3 & H4 & H5 & H6 & H7 & H8 & H9 & H10 & H11 & H12 & H13 & H14 & H15).
+    destruct x as [xs lrr dl]. simpl in Hm. subst xs.
+    unfold rec_dlrr1. rewrite Z.eqb_refl, andb_true_r.
+    unfold invD4. rewrite !flat_map_snoc, !map_app, !zsum_app, !zlen_app, !last_opt_app_l.
+    assert (Hsmp : dlrr_sample (pre, ts, Dl ssrc lrr dl) =
+                   if negb (lrr =? 0) && negb (dl =? 0)
+                   then match find (fun n => mid32 n =? lrr) (rrtrs c) with Some n => [(ts, dl, n)] | None => [] end
+                   else []).
+    { unfold dlrr_sample. rewrite Hr. reflexivity. }
+    rewrite Hsmp. clear Hsmp.
+    destruct (negb (lrr =? 0) && negb (dl =? 0)).
+    - destruct (find (fun n => mid32 n =? lrr) (rrtrs c)) as [n|]; simpl.
+      + repeat split; auto;
+          try (rewrite H12; unfold zsum, rtt3; simpl; lia); try (rewrite H13; unfold zlen; simpl; lia).
+      + rewrite !Z.add_0_r. repeat split; auto.
+    - simpl. rewrite !Z.add_0_r. repeat split; auto.
+  Qed.
+
+  Lemma dl1_skip c ts d x : dl_ssrc x <> ssrc -> rec_dlrr1 k_delay k_ntpfrac ssrc c ts (d : rem F) x = d.
+  Proof.
+    intros Hm. destruct x; simpl in *. destruct (dssrc =? ssrc) eqn:E; [lia|].
+    rewrite andb_false_r. reflexivity.
+  Qed.
+
+  Lemma dl_fold pre b c ts P O l : ctx pre b c -> forall X d, invD4 P O X d ->
+    invD4 P O (X ++ map (fun x => (pre, ts, x)) (filter (fun x => dl_ssrc x =? ssrc) l))
+          (fold_left (rec_dlrr1 k_delay k_ntpfrac ssrc c ts) l d).
+  Proof.
+    intros Hc. induction l as [|x l IH]; intros X d H; simpl.
+    - rewrite app_nil_r. exact H.
+    - destruct (dl_ssrc x =? ssrc) eqn:E.
+      + simpl. replace (X ++ (pre, ts, x) :: map (fun x0 => (pre, ts, x0)) (filter (fun x0 => dl_ssrc x0 =? ssrc) l))
+          with ((X ++ [(pre, ts, x)]) ++ map (fun x0 => (pre, ts, x0)) (filter (fun x0 => dl_ssrc x0 =? ssrc) l))
+          by (rewrite <- app_assoc; reflexivity).
+        apply IH. eapply dl1_match; eauto. lia.
+      + rewrite dl1_skip by lia. apply IH. exact H.
+  Qed.
+
+  Lemma xr_blocks_flat c ts blocks (d : rem F) :
+    fold_left (rec_xrblock k_delay k_ntpfrac ssrc c ts) blocks d =
+    fold_left (rec_dlrr1 k_delay k_ntpfrac ssrc c ts)
+              (flat_map (fun b => match b with XDlrr l => l | _ => [] end) blocks) d.
+  Proof.
+    revert d; induction blocks as [|blk bs IH]; intros d; simpl; auto.
+    rewrite fold_left_app. destruct blk; simpl; apply IH.
+  Qed.
+
+  (* spec side: contributions of one more packet *)
+  Lemma reps_for_snoc ps p : reps_for ssrc (ps ++ [p]) =
+    reps_for ssrc ps ++ (if addressed ssrc p then filter (fun r => rep_ssrc r =? ssrc) (reps_of p) else []).
+  Proof.
+    unfold reps_for. rewrite filter_app, flat_map_app', filter_app. f_equal.
+    simpl. destruct (addressed ssrc p); simpl; rewrite ?app_nil_r; reflexivity.
+  Qed.
+
+  Lemma dlrrs_for_snoc ps p : dlrrs_for ssrc (ps ++ [p]) =
+    dlrrs_for ssrc ps ++ (if addressed ssrc p then filter (fun x => dl_ssrc x =? ssrc) (dlrrs_of p) else []).
+  Proof.
+    unfold dlrrs_for. rewrite filter_app, flat_map_app', filter_app. f_equal.
+    simpl. destruct (addressed ssrc p); simpl; rewrite ?app_nil_r; reflexivity.
+  Qed.
+
+  Lemma invD4_counts_only P O X (d d' : rem F) p :
+    invD4 P O X d ->
+    is_sr_to_s p = false ->
+    o_nack d' = u32 (o_nack d + (if is_nack p && fb_to_s ssrc p then 1 else 0)) ->
+    o_fir d' = u32 (o_fir d + (if is_fir p && fb_to_s ssrc p then 1 else 0)) ->
+    o_pli d' = u32 (o_pli d + (if is_pli p && fb_to_s ssrc p then 1 else 0)) ->
+    ri_lost d' = ri_lost d -> ri_jit d' = ri_jit d -> ri_frac d' = ri_frac d -> ri_recv d' = ri_recv d ->
+    ri_rtt d' = ri_rtt d -> ri_total d' = ri_total d -> ri_meas d' = ri_meas d ->
+    ro_rtt d' = ro_rtt d -> ro_total d' = ro_total d -> ro_meas d' = ro_meas d ->
+    ro_reports d' = ro_reports d -> ro_sent d' = ro_sent d -> ro_bytes d' = ro_bytes d -> ro_ts d' = ro_ts d ->
+    invD4 (P ++ [p]) O X d'.
+  Proof.
+    intros (H1 & H2 & H3 & H4 & H5 & H6 & H7 & H8 & H9 & H10 & H11 & H12 & H13 & H14 & H15) Hsr
+           E1 E2 E3 E4 E5 E6 E7 E8 E9 E10 E11 E12 E13 E14 E15 E16 E17.
+    unfold invD4. rewrite !count_snoc, filter_app. simpl filter. rewrite Hsr, app_nil_r.
+    rewrite E1, E2, E3, E4, E5, E6, E7, E8, E9, E10, E11, E12, E13, E14, E15, E16, E17.
+    rewrite H1, H2, H3.
+    repeat split; auto; unfold u32;
+      match goal with |- context [if ?c then _ else _] => destruct c end; lia.
+  Qed.
+
+  (* one packet of an incoming compound *)
+  Lemma in_rtcp1_step pre b c ts P O X ps p d : ctx pre b c ->
+    invD4 (P ++ ps) (O ++ map (fun r => (pre, ts, r)) (reps_for ssrc ps))
+          (X ++ map (fun x => (pre, ts, x)) (dlrrs_for ssrc ps)) d ->
+    invD4 (P ++ ps ++ [p]) (O ++ map (fun r => (pre, ts, r)) (reps_for ssrc (ps ++ [p])))
+          (X ++ map (fun x => (pre, ts, x)) (dlrrs_for ssrc (ps ++ [p])))
+          (rec_in_rtcp1 k_rjitter k_frac k_delay k_ntpfrac ssrc rate b c ts d p).
+  Proof.
+    intros Hc H. rewrite reps_for_snoc, dlrrs_for_snoc, !map_app, !app_assoc.
+    unfold rec_in_rtcp1. unfold addressed.
+    destruct (mem ssrc (dest p)) eqn:Ea; simpl negb; cbv iota.
+    2:{ (* not addressed: skipped; the recount ignores it too *)
+      simpl map. rewrite !app_nil_r.
+      eapply invD4_counts_only; eauto.
+      - destruct p; simpl; auto; try (unfold addressed; exact Ea).
+      - destruct p; simpl; rewrite ?Z.add_0_r; unfold u32; try (destruct H as (G & _); rewrite G; lia).
+        simpl in Ea. unfold mem in Ea; simpl in Ea. rewrite orb_false_r, Z.eqb_sym in Ea. rewrite Ea. simpl.
+        destruct H as (G & _); rewrite G, Z.add_0_r; lia.
+      - destruct p; simpl; rewrite ?Z.add_0_r; unfold u32; try (destruct H as (_ & G & _); rewrite G; lia).
+        simpl in Ea. rewrite Ea. simpl. destruct H as (_ & G & _); rewrite G, Z.add_0_r; lia.
+      - destruct p; simpl; rewrite ?Z.add_0_r; unfold u32; try (destruct H as (_ & _ & G & _); rewrite G; lia).
+        simpl in Ea. unfold mem in Ea; simpl in Ea. rewrite orb_false_r, Z.eqb_sym in Ea. rewrite Ea. simpl.
+        destruct H as (_ & _ & G & _); rewrite G, Z.add_0_r; lia. }
+    destruct p; simpl reps_of; simpl dlrrs_of; simpl filter; simpl map; rewrite ?app_nil_r.
+    - (* SR *)
+      apply rr_fold; auto.
+      destruct H as (H1 & H2 & H3 & H4 & H5 & H6 & H7 & H8 & H9 & H10 & H11 & H12 & H13 & H14 & H15).
+      unfold invD4. rewrite !count_snoc, filter_app. simpl filter. unfold addressed. rewrite Ea.
+      rewrite last_opt_app, zlen_app. simpl.
+      rewrite !Z.add_0_r. repeat split; auto. rewrite H14. unfold zlen; simpl; lia.
+    - (* RR *)
+      apply rr_fold; auto.
+      eapply invD4_counts_only; eauto; simpl; rewrite ?Z.add_0_r; unfold u32;
+        [destruct H as (G & _)|destruct H as (_ & G & _)|destruct H as (_ & _ & G & _)]; rewrite G; lia.
+    - (* XR *)
+      rewrite xr_blocks_flat. eapply dl_fold; eauto.
+      eapply invD4_counts_only; eauto; simpl; rewrite ?Z.add_0_r; unfold u32;
+        [destruct H as (G & _)|destruct H as (_ & G & _)|destruct H as (_ & _ & G & _)]; rewrite G; lia.
+    - (* NACK *)
+      simpl in Ea. unfold mem in Ea; simpl in Ea. rewrite orb_false_r, Z.eqb_sym in Ea. rewrite Ea.
+      eapply invD4_counts_only; eauto; simpl; rewrite ?Ea, ?Z.add_0_r; unfold u32; auto;
+        [destruct H as (_ & G & _)|destruct H as (_ & _ & G & _)]; rewrite G; lia.
+    - (* PLI *)
+      simpl in Ea. unfold mem in Ea; simpl in Ea. rewrite orb_false_r, Z.eqb_sym in Ea. rewrite Ea.
+      eapply invD4_counts_only; eauto; simpl; rewrite ?Ea, ?Z.add_0_r; unfold u32; auto;
+        [destruct H as (G & _)|destruct H as (_ & G & _)]; rewrite G; lia.
+    - (* FIR *)
+      simpl in Ea.
+      eapply invD4_counts_only; eauto; simpl; rewrite ?Ea, ?Z.add_0_r; unfold u32; auto;
+        [destruct H as (G & _)|destruct H as (_ & _ & G & _)]; rewrite G; lia.
+    - (* other *)
+      eapply invD4_counts_only; eauto; simpl; rewrite ?Z.add_0_r; unfold u32;
+        [destruct H as (G & _)|destruct H as (_ & G & _)|destruct H as (_ & _ & G & _)]; rewrite G; lia.
+  Qed.
+
+  Lemma in_rtcp_fold pre b c ts P O X pkts : ctx pre b c -> forall ps d,
+    invD4 (P ++ ps) (O ++ map (fun r => (pre, ts, r)) (reps_for ssrc ps))
+          (X ++ map (fun x => (pre, ts, x)) (dlrrs_for ssrc ps)) d ->
+    invD4 (P ++ ps ++ pkts) (O ++ map (fun r => (pre, ts, r)) (reps_for ssrc (ps ++ pkts)))
+          (X ++ map (fun x => (pre, ts, x)) (dlrrs_for ssrc (ps ++ pkts)))
+          (fold_left (rec_in_rtcp1 k_rjitter k_frac k_delay k_ntpfrac ssrc rate b c ts) pkts d).
+  Proof.
+    intros Hc. induction pkts as [|p pkts IH]; intros ps d H; simpl.
+    - rewrite !app_nil_r. exact H.
+    - replace (ps ++ p :: pkts) with ((ps ++ [p]) ++ pkts) by (rewrite <- app_assoc; reflexivity).
+      apply IH. apply in_rtcp1_step; auto.
+  Qed.
+
+  Lemma ctx_run evs : ctx evs (sb (run evs)) (sc (run evs)).
+  Proof.
+    pose proof (invB_run evs) as (_ & _ & _ & Hb). pose proof (invC_run evs) as (_ & _ & _ & Hs & Hr).
+    split; [exact Hb|split; assumption].
+  Qed.
+
+  Lemma invD_run evs : invD evs (sd (run evs)).
+  Proof.
+    induction evs as [|e evs IH] using rev_ind.
+    - unfold invD, invD4. simpl. repeat split.
+    - rewrite run_snoc. unfold invD, rr_occs, dl_occs in *.
+      rewrite prefixes_snoc, !flat_map_snoc.
+      destruct e; simpl; rewrite ?app_nil_r; try exact IH.
+      unfold rr_occ, dl_occ. simpl.
+      pose proof (in_rtcp_fold evs (sb (run evs)) (sc (run evs)) ts
+                    (flat_map in_rtcp evs) (flat_map (rr_occ ssrc) (prefixes evs)) (flat_map (dl_occ ssrc) (prefixes evs))
+                    pkts (ctx_run evs) [] (sd (run evs))) as G.
+      simpl in G. rewrite !app_nil_r in G. apply G. exact IH.
+  Qed.
+
+  (* ================= the statements used by Properties/C19.v ================= *)
+  Lemma thm_outbound_counts evs :
+    o_sent (sb (run evs)) = spec_out_sent ssrc evs /\
+    o_bytes (sb (run evs)) = spec_out_bytes ssrc evs /\
+    o_hdr (sb (run evs)) = spec_out_hdr ssrc evs.
+  Proof. pose proof (invB_run evs) as H. unfold invB in H. tauto. Qed.
+
+  Lemma thm_inbound_counts evs :
+    i_recv (sa (run evs)) = spec_in_recv ssrc evs /\
+    i_hdr (sa (run evs)) = spec_in_hdr ssrc evs /\
+    i_bytes (sa (run evs)) = spec_in_bytes ssrc evs /\
+    i_last (sa (run evs)) = spec_in_last ssrc evs.
+  Proof. pose proof (invA_run evs) as H. unfold invA in H. cbv zeta in H. tauto. Qed.
+
+  Lemma thm_lost evs : i_lost (sa (run evs)) = spec_in_lost ssrc evs.
+  Proof. pose proof (invA_run evs) as H. unfold invA in H. cbv zeta in H. tauto. Qed.
+
+  Lemma thm_feedback_in evs :
+    i_fir (sc (run evs)) = spec_fb_sent ssrc is_fir evs /\
+    i_pli (sc (run evs)) = spec_fb_sent ssrc is_pli evs /\
+    i_nack (sc (run evs)) = spec_fb_sent ssrc is_nack evs.
+  Proof. pose proof (invC_run evs) as H. unfold invC in H. tauto. Qed.
+
+  Lemma thm_feedback_out evs :
+    o_fir (sd (run evs)) = spec_fb_recv ssrc is_fir evs /\
+    o_pli (sd (run evs)) = spec_fb_recv ssrc is_pli evs /\
+    o_nack (sd (run evs)) = spec_fb_recv ssrc is_nack evs.
+  Proof. pose proof (invD_run evs) as H. unfold invD, invD4 in H. unfold spec_fb_recv. tauto. Qed.
+
+  Lemma thm_remote_latest evs :
+    match spec_last_report ssrc evs with
+    | Some (Rep _ fr lost _ jit _ _) =>
+        ri_lost (sd (run evs)) = lost /\ ri_jit (sd (run evs)) = k_rjitter rate jit /\ ri_frac (sd (run evs)) = k_frac fr
+    | None => ri_lost (sd (run evs)) = 0 /\ ri_jit (sd (run evs)) = fzero /\ ri_frac (sd (run evs)) = fzero
+    end /\
+    ri_recv (sd (run evs)) = spec_remote_recv ssrc evs.
+  Proof.
+    pose proof (invD_run evs) as (_ & _ & _ & H4 & H5 & H6 & H7 & _).
+    unfold spec_last_report, spec_remote_recv. split; [|exact H7].
+    destruct (last_opt (map occ_rep (rr_occs ssrc evs))) as [[? ? ? ? ? ? ?]|]; auto.
+  Qed.
+
+  Lemma thm_rtt_lsr evs :
+    ri_meas (sd (run evs)) = zlen (lsr_samples ssrc evs) /\
+    ri_total (sd (run evs)) = zsum (map rtt3 (lsr_samples ssrc evs)) /\
+    ri_rtt (sd (run evs)) = match last_opt (lsr_samples ssrc evs) with Some smp => rtt3 smp | None => 0 end.
+  Proof. pose proof (invD_run evs) as H. unfold invD, invD4 in H. unfold lsr_samples. tauto. Qed.
+
+  Lemma thm_rtt_dlrr evs :
+    ro_meas (sd (run evs)) = zlen (dlrr_samples ssrc evs) /\
+    ro_total (sd (run evs)) = zsum (map rtt3 (dlrr_samples ssrc evs)) /\
+    ro_rtt (sd (run evs)) = match last_opt (dlrr_samples ssrc evs) with Some smp => rtt3 smp | None => 0 end.
+  Proof. pose proof (invD_run evs) as H. unfold invD, invD4 in H. unfold dlrr_samples. tauto. Qed.
+
+  Lemma thm_remote_sr evs :
+    ro_reports (sd (run evs)) = spec_reports_sent ssrc evs /\
+    match spec_last_sr ssrc evs with
+    | Some (PSR _ ntp _ pc oc _) =>
+        ro_sent (sd (run evs)) = pc /\ ro_bytes (sd (run evs)) = oc /\
+        ro_ts (sd (run evs)) = Some (to_time k_ntpfrac ntp)
+    | _ => ro_sent (sd (run evs)) = 0 /\ ro_bytes (sd (run evs)) = 0 /\ ro_ts (sd (run evs)) = None
+    end.
+  Proof.
+    pose proof (invD_run evs) as H. unfold invD, invD4 in H.
+    unfold spec_reports_sent, spec_last_sr, srs_in. split; tauto.
+  Qed.
+
+  (* the recorder never remembers more than five report times *)
+  Lemma thm_last_five evs : (length (srs (sc (run evs))) <= 5)%nat /\ (length (rrtrs (sc (run evs))) <= 5)%nat.
+  Proof.
+    pose proof (invC_run evs) as (_ & _ & _ & Hs & Hr). rewrite Hs, Hr. unfold recent.
+    split; apply firstn_le_length.
+  Qed.
+
+  (* well-typed input: every incoming RTP sequence number is a uint16 *)
+  Definition wf_event (e : event) : Prop :=
+    match e with InRTP _ _ seq _ _ _ => 0 <= seq < 65536 | _ => True end.
+
+  Lemma wf_seqs evs : Forall wf_event evs -> all_u16 (map pk_seq (in_pks ssrc evs)).
+  Proof.
+    unfold all_u16. induction 1 as [|e evs He _ IH]; simpl; [constructor|].
+    rewrite map_app. apply Forall_app. split; [|exact IH].
+    destruct e; simpl; try constructor. destruct (ss =? ssrc); simpl; constructor; auto.
+  Qed.
+
+  Lemma thm_lost_range evs : Forall wf_event evs -> in_pks ssrc evs <> [] ->
+    let U := in_unwrapped ssrc evs in
+    exists first highest,
+      hd_error U = Some first /\ In highest U /\ (forall x, In x U -> x <= highest) /\
+      i_lost (sa (run evs)) = (highest - first + 1) - zlen U.
+  Proof.
+    intros Hwf Hne U. pose proof (thm_lost evs) as HL. unfold spec_in_lost in HL. fold U in HL.
+    assert (Hlen : length U = length (in_pks ssrc evs)).
+    { unfold U, in_unwrapped. rewrite unwrap_all_length, map_length. reflexivity. }
+    assert (Hpos : Forall (fun x => 0 <= x) U).
+    { apply (unwrap_all_nonneg None _ I). apply wf_seqs. exact Hwf. }
+    destruct U as [|f U'] eqn:EU.
+    - destruct (in_pks ssrc evs); [congruence|discriminate].
+    - destruct (fold_max_is_max (f :: U')) as [G1 G2]; [discriminate|exact Hpos|].
+      exists f, (fold_left Z.max (f :: U') 0).
+      split; [reflexivity|]. split; [exact G1|]. split; [exact G2|].
+      rewrite HL. unfold spec_in_recv, zlen. rewrite <- Hlen. reflexivity.
+  Qed.
+
+  (* run_all (used by the correspondence check) lists run at every query point *)
+  Lemma run_all_nth evs : forall s0 k s,
+    nth_error (run_all k_units k_jitter k_rjitter k_frac k_delay k_ntpfrac ssrc rate s0 evs) k = Some s ->
+    s = fold_left step (firstn (S k) evs) s0.
+  Proof.
+    induction evs as [|e evs IH]; intros s0 k s H; simpl in *.
+    - destruct k; discriminate.
+    - destruct k; simpl in *.
+      + inversion H. reflexivity.
+      + apply IH. exact H.
+  Qed.
 End P.
+
+  (* a reception report about ssrc makes its SR/RR "addressed to ssrc": the
+     addressed-filter of the recount drops nothing *)
+  Lemma mem_app_false s l1 l2 : mem s (l1 ++ l2) = false -> mem s l1 = false.
+  Proof. unfold mem. rewrite existsb_app. intros H. apply orb_false_iff in H. tauto. Qed.
+
+  Lemma no_report_if_not_mem ssrc reps : mem ssrc (map rep_ssrc reps) = false ->
+    filter (fun r => rep_ssrc r =? ssrc) reps = [].
+  Proof.
+    induction reps as [|r reps IH]; simpl; auto.
+    intros H. apply orb_false_iff in H as [H1 H2]. rewrite Z.eqb_sym, H1. auto.
+  Qed.
+
+  Lemma thm_reps_for ssrc pkts :
+    reps_for ssrc pkts = filter (fun r => rep_ssrc r =? ssrc) (flat_map reps_of pkts).
+  Proof.
+    unfold reps_for. induction pkts as [|p pkts IH]; simpl; auto.
+    rewrite filter_app, <- IH. destruct (addressed ssrc p) eqn:E; simpl.
+    - rewrite filter_app. reflexivity.
+    - replace (filter (fun r => rep_ssrc r =? ssrc) (reps_of p)) with (@nil report); [reflexivity|].
+      unfold addressed in E. destruct p; simpl in *; auto; symmetry; apply no_report_if_not_mem; auto.
+      eapply mem_app_false; eauto.
+  Qed.
+
